@@ -17,7 +17,7 @@ import os
 from vlib import *
 
 # deviations of the code as it stands (after the fix: commits); VERIF_DEVS overrides it for experiments with older trees
-DEVS_CURRENT = os.environ.get("VERIF_DEVS", '{"OperandPerEdge"}')
+DEVS_CURRENT = os.environ.get("VERIF_DEVS", '{}')
 
 MC_CFG = """SPECIFICATION Spec
 CONSTANTS
@@ -56,7 +56,7 @@ INVARIANTS
   EdgeWeightIsTargetPlusHop
 """
 
-if "VERIF_DEVS" in os.environ:      # experiment with an older tree: the Ideal-comparing invariants are expected to fail
+if os.environ.get("VERIF_DEVS", "{}") != "{}":      # experiment with an older tree: the Ideal-comparing invariants are expected to fail
     for inv in ("AcceptIffWellFounded", "RewriteCycleNeverAccepted", "NoEmptyWeights", "WeightsAreTrueMaxHops", "EdgeWeightIsTargetPlusHop"):
         MC_CFG = MC_CFG.replace("  " + inv + "\n", "")
         TRACE_CFG = TRACE_CFG.replace("  " + inv + "\n", "")
